@@ -588,6 +588,30 @@ impl<'a> VisitMut for Norm<'a> {
                     *f.expr = parse_quote!(#w(#ex));
                 }
                 self.visit_block_mut(&mut f.body);
+                // R-FORPAT: reference sub-patterns in a `for` pattern -> fresh binder + `let INNER = *binder;` at the body start
+                {
+                    let mut lets: Vec<Stmt> = vec![];
+                    let mut no = self.forpat_no;
+                    fn walk(p: &mut Pat, no: &mut usize, lets: &mut Vec<Stmt>) {
+                        match p {
+                            Pat::Reference(r) => {
+                                *no += 1;
+                                let id = Ident::new(&format!("__vx_x{}", *no), Span::call_site());
+                                let inner = (*r.pat).clone();
+                                lets.push(parse_quote!(let #inner = *#id;));
+                                *p = parse_quote!(#id);
+                            }
+                            Pat::Tuple(t) => { for el in t.elems.iter_mut() { walk(el, no, lets); } }
+                            Pat::Paren(pp) => walk(&mut pp.pat, no, lets),
+                            _ => {}
+                        }
+                    }
+                    walk(&mut f.pat, &mut no, &mut lets);
+                    if !lets.is_empty() {
+                        self.forpat_no = no;
+                        for (k, s) in lets.into_iter().enumerate() { f.body.stmts.insert(k, s); self.bump("R-FORPAT"); }
+                    }
+                }
                 self.finish_loop(n, &mut f.body);
                 f.attrs.clear();
             }
@@ -885,8 +909,8 @@ impl<'a> Norm<'a> {
         let can = self.canary_stmt(&format!("loop{}", n));
         // keep a `let PAT = __vx_xK;` (R-FORPAT) first
         let mut pos = 0;
-        if let Some(Stmt::Local(l)) = body.stmts.first() {
-            if let Some(init) = &l.init { if ts(&init.expr).starts_with("__vx_x") { pos = 1; } }
+        while let Some(Stmt::Local(l)) = body.stmts.get(pos) {
+            match &l.init { Some(init) if ts(&init.expr).contains("__vx_x") => pos += 1, _ => break }
         }
         for (k, s) in s0.into_iter().enumerate() { body.stmts.insert(pos + k, s); }
         body.stmts.extend(s1);
